@@ -22,6 +22,10 @@ pub enum TidRef {
     Answered(u16),
     /// 0 => 0.0, 1 => -1.0, 2 => NaN, 3 => 2^33, 4 => a number never issued (1000+)
     Special(u8),
+    /// the k-th id ABOVE the largest transaction id the session has issued so far, i.e. the id
+    /// the next request would get (an implementation that registers a transaction for a request
+    /// it refuses would apply an answer to it)
+    Next(u8),
 }
 
 #[derive(Clone, Debug, Serialize, Deserialize, PartialEq)]
@@ -289,6 +293,7 @@ fn tid_value(model: &Model, r: &TidRef) -> (f64, &'static str) {
             (*ids[((*i as usize) * ids.len()) >> 16] as f64, "outstanding")
         }
         TidRef::Answered(i) if !model.answered.is_empty() => (model.answered[((*i as usize) * model.answered.len()) >> 16] as f64, "answered"),
+        TidRef::Next(k) => ((model.seen_tids.iter().next_back().copied().unwrap_or(0) + 1 + (*k as u32 % 3)) as f64, "unknown"),
         TidRef::Special(k) => match k % 5 {
             0 => (0.0, "unknown"),
             1 => (-1.0, "unknown"),
@@ -777,7 +782,7 @@ fn eval_inner(case: &Case, clock: &Clock, ex: &mut Exec, age: &mut u64) -> Verdi
 // generators
 
 fn tid_ref() -> BoxedStrategy<TidRef> {
-    prop_oneof![7 => any::<u16>().prop_map(TidRef::Outstanding), 2 => any::<u16>().prop_map(TidRef::Answered), 2 => (0u8..5).prop_map(TidRef::Special)].boxed()
+    prop_oneof![7 => any::<u16>().prop_map(TidRef::Outstanding), 2 => any::<u16>().prop_map(TidRef::Answered), 2 => (0u8..5).prop_map(TidRef::Special), 2 => (0u8..3).prop_map(TidRef::Next)].boxed()
 }
 
 pub fn cop() -> BoxedStrategy<COp> {
@@ -851,6 +856,7 @@ pub fn alphabet() -> Vec<COp> {
         COp::PublishAudio { len: 4, ts: 9, drop: true },
         COp::Result { tid: TidRef::Outstanding(0), stream: Some(4) },
         COp::Result { tid: TidRef::Answered(0), stream: Some(7) },
+        COp::Result { tid: TidRef::Next(0), stream: Some(2) },
         COp::Error { tid: TidRef::Outstanding(0) },
         COp::OnStatus { kind: 0 },
         COp::OnStatus { kind: 1 },
@@ -897,7 +903,7 @@ pub fn spec() -> PropSpec {
     PropSpec {
         id: "C10",
         level: "exploration",
-        rule: "histories of 1..25 operations over application calls {request_connection, request_playback, request_publishing, stop_playback, stop_publishing, publish_metadata/audio/video, send_ping_request} and server messages {_result / _error with an outstanding, already-answered or unknown transaction id (0, -1, NaN, 2^33, never issued), with / without a stream id; onStatus with Play.Start, Publish.Start, another code, no code, a non-object, no argument; audio / video / onMetaData on the active or another stream; ping; acknowledgement; window size; peer chunk size; unknown commands}, encoded by the reference peer and delivered whole or cut in two; 60% of histories start behind a connected / play-requested / publishing prefix. Plus ALL sequences of length <= 4 (quick) / <= 5 (thorough) over a fixed 13-letter alphabet from scratch and of length <= 3 / <= 4 behind each of three prefixes. ModelClient judges the clauses of the statement and follows the observation where it is silent; operations that must not change anything (refused by state, answers to unknown transactions, start status in the wrong state, media for a non-active stream) are additionally removed in a twin run whose remaining observations must be identical. Non-trivial = at least one accepted step and (an operation refused by state or an answer to a non-outstanding transaction); distinct = distinct history",
+        rule: "histories of 1..25 operations over application calls {request_connection, request_playback, request_publishing, stop_playback, stop_publishing, publish_metadata/audio/video, send_ping_request} and server messages {_result / _error with an outstanding, already-answered or unknown transaction id (0, -1, NaN, 2^33, never issued), with / without a stream id; onStatus with Play.Start, Publish.Start, another code, no code, a non-object, no argument; audio / video / onMetaData on the active or another stream; ping; acknowledgement; window size; peer chunk size; unknown commands}, encoded by the reference peer and delivered whole or cut in two; 60% of histories start behind a connected / play-requested / publishing prefix. Plus ALL sequences of length <= 4 (quick) / <= 5 (thorough) over a fixed 14-letter alphabet from scratch and of length <= 3 / <= 4 behind each of three prefixes. ModelClient judges the clauses of the statement and follows the observation where it is silent; operations that must not change anything (refused by state, answers to unknown transactions, start status in the wrong state, media for a non-active stream) are additionally removed in a twin run whose remaining observations must be identical. Non-trivial = at least one accepted step and (an operation refused by state or an answer to a non-outstanding transaction); distinct = distinct history",
         assumptions: vec![
             "ModelClient is written from the statement; don't-cares: a second play/publish request while a createStream is unanswered, a createStream result arriving while another activity is in progress, a second connect result, createStream answered by _error or without a stream id, metadata gating by state (asserted: never for a non-active stream), fractional transaction ids (never generated)",
             "each server message is delivered in its own call(s); an Err return is an acceptable refusal",
